@@ -784,6 +784,28 @@ fn exhaustive(cx: &mut Cx, depth: usize, qd: usize)
 	for (base, i, m, mx, out) in results {check_enum(cx, base, depth, qd, &[i], &m, &mx, out);}
 }
 
+/// a `put` whose data runs past 0xFFFFFFFF by a long way: rejected, map unchanged
+fn bigput(cx: &mut Cx, addr: u32, len: usize)
+{
+	let big = vec![0u8; len];
+	let input = format!("bigput {addr} {len}");
+	let mut map = MemoryMap::new();
+	let _ = map.put(0x100, &[1, 2, 3]);
+	let before: Vec<(u32, Vec<u8>)> = map.iter().map(|(r, d)| (r.get_first(), d.to_vec())).collect();
+	let r = guarded(|| {let r = map.put(addr, &big); (r.is_err(), map.iter().map(|(r, d)| (r.get_first(), d.to_vec())).collect::<Vec<_>>())});
+	cx.report.cases(1);
+	cx.report.hit("put longer than the remaining address space (>= 2^31 bytes)");
+	match r
+	{
+		Err(p) => cx.report.oracle_fail(input, format!("put panicked: {p}")),
+		Ok((rejected, after)) =>
+		{
+			if !rejected {cx.report.oracle_fail(input, format!("put of {len} bytes at {addr:#x} runs past 0xFFFFFFFF but was accepted"));}
+			else if after != before {cx.report.oracle_fail(input, "a rejected put changed the map");}
+		},
+	}
+}
+
 pub fn run(_id: &str, cx: &mut Cx)
 {
 	cx.report.rule = "exhaustive: every history (one per tree node) of put/remove/remove_range/clear of length <= depth over the 58-op alphabet \
@@ -826,6 +848,15 @@ evaluations = ops + queries executed on the real map; non-trivial = every histor
 				let out = real_enum(base, depth, qd, &pre);
 				check_enum(cx, base, depth, qd, &pre, &m, &mx, out);
 			},
+			["bigput", rest] =>
+			{
+				let f: Vec<&str> = rest.split(' ').collect();
+				match (f.first().and_then(|a| a.parse::<u32>().ok()), f.get(1).and_then(|l| l.parse::<usize>().ok()))
+				{
+					(Some(a), Some(l)) => bigput(cx, a, l),
+					_ => cx.report.oracle_fail(input.clone(), "unrecognised replay input"),
+				}
+			},
 			_ => cx.report.oracle_fail(input.clone(), "unrecognised replay input"),
 		}
 		return;
@@ -845,6 +876,16 @@ evaluations = ops + queries executed on the real map; non-trivial = every histor
 	let replies = cx.model.ask_many(&lines);
 	for (f, r) in fixed.iter().zip(replies.iter()) {check_run(cx, f, r);}
 	cx.report.sample(format!("run {} -> {}", fixed[0], replies[0]));
+
+	// data longer than the whole address space: must be rejected, map unchanged (the zeroed buffer is never touched by a
+	// correct `put`, so this costs nothing; lengths of 2^32 and more are only reachable on a 64-bit target)
+	if usize::BITS >= 64
+	{
+		for (addr, len) in [(0u32, (1usize << 32) + 1), (0x2000_0000, (1 << 32) + 1), (1, 1 << 32), (0xFFFF_FFFF, 1 << 32), (0x8000_0000, (1 << 31) + 1), (0xFFFF_FFFF, 2)]
+		{
+			bigput(cx, addr, len);
+		}
+	}
 
 	// exhaustive tier
 	let (depth, qd) = if cx.thorough() {(5, 3)} else {(4, 2)};
